@@ -140,6 +140,20 @@ PROPS = {
         "trusted_base": TB_EVAL, "fingerprints": EVAL_FP,
         "assumptions": ["converted values are representable in the target (otherwise implementation defined: skipped)"],
     },
+    "C10": {
+        "lean": ["GV.Props.C10"],
+        "scenarios": [{"scn": "compile", "n": {"quick": 600, "thorough": 8000},
+                       "aspects": ["accept", "after", "order", "crash", "front", "state", "driver"]}],
+        "rule": "texts: valid (1-3 rules over 6 names, saliences with ties / extremes / omitted), duplicate rule names, a character the lexer has no token for between two tokens, token-level mutations (drop / duplicate / swap / truncate), random bytes (alone or after a valid prefix), blank and comment-only texts; each submitted to BuildRuleFromString, BuildRuleWithIncremental, NewGenginePool, UpdatePooledRules, UpdatePooledRulesIncremental from a known installed set under recover; accept vector, installed set (container dump / pool queries) and executed values compared with model and spec; front-end outcome from the verif hook builder.VerifFrontEnd; non-trivial = some entry point accepted",
+        "trusted_base": [
+            "Lean 4.33 kernel; axioms allowed: propext, Classical.choice, Quot.sound (audited per theorem)",
+            "/verif/extract compile-event translator (listeners attached, error lists checked, first write of installed state, compile calls) regenerating GV.Generated.Compile on every run",
+            "ANTLR lexer / parser / listener are a parameter of the model (five observable answers); grammar facts assumed: a blank text does not parse, a text without errors defines a rule (checked on every generated text: aspect front)",
+            "verif hook builder.VerifFrontEnd (build tag verif), /verif/harness, /verif/checklib comparator",
+            "totality of the ANTLR runtime and of the listener on error-recovered trees is exercised by the mutation stream, not proved (partial)"],
+        "fingerprints": ["builder:", "engine:getKc", "engine:makeRuleBuilder", "engine:UpdatePooledRules", "engine:NewGenginePool", "internal/iparser:"],
+        "assumptions": [],
+    },
     "C15": {
         "lean": ["GV.Props.C15"],
         "scenarios": [{"scn": "eval", "filter": "locals", "n": {"quick": 200, "thorough": 3000},
@@ -220,6 +234,10 @@ MANIFEST_TEXT.update({
     "C20": {"text": "Proof: lowering copies each construct's line into its AST node; the reference semantics cites the failing construct's own line for arithmetic, comparison, logic, call and assignment faults and keeps the innermost citation; rule_refines / lowerX_correct carry this to the interpreter. Differential runs over multi-line renderings compare the line the real error cites with the failing construct's line in the reference tree, and the positions the listener recorded with the lowering (shape-pos).",
             "note": EVAL_NOTE, "technique": "Lean 4 proofs over reference semantics + differential cited-line and position comparison"},
 })
+MANIFEST_TEXT["C10"] = {
+    "text": "Proof: over the event lists regenerated from the five entry points' sources and the whole (finite) table of front-end outcomes: every error is reported before the installed set is first written (all-or-nothing); every entry point accepts exactly the texts against which lexer, parser and listener report nothing (same language, rejected by one iff by all); a repeated rule name makes the listener record an error (fold lemma over the regenerated duplicate check) and every entry point reject. Differential runs submit mutated texts to all entry points and compare accept vectors and the installed set before/after with model and spec. Partial: that the ANTLR front end returns normally on every byte string is exercised (mutation stream under recover), not proved.",
+    "note": "Model = event lists regenerated on every run (T1); front end is a parameter observed through a verif hook; trusted: Lean kernel, extractor, harness, comparator.",
+    "technique": "Lean 4 kernel-decided theorems over regenerated entry-point descriptors + list induction for duplicates + differential mutation runs"}
 MANIFEST_TEXT["C09"] = {"text": "Proof: engine level: for every ResultsWF skeleton (all 21 extracted ones) no execution method panics; rule level: with the recover at RuleEntity.Execute (fact regenerated from source) no rule body and no data make the rule's execution panic, an unbounded for loop is cut off with an error after maxExecuteNum iterations, and the interpreter model is total. Differential fault injection: ill-typed programs, panicking injected functions, unbounded loops, failing conc children, in a child process with a hang timeout.",
     "note": ORCH_NOTE + " " + EVAL_NOTE, "technique": "Lean 4 no-panic theorems over regenerated skeletons and facts + totality of the interpreter model + fault-injection differential runs"}
 
